@@ -2,7 +2,9 @@
 // SPDX-License-Identifier: Apache-2.0
 
 #include <algorithm>
+#include <cstddef>
 #include <cstdint>
+#include <memory>
 #include <mutex>
 #include <ostream>
 #include <string>
@@ -50,6 +52,20 @@ namespace metrics
 {
 
 namespace metrics = opentelemetry::metrics;
+
+namespace
+{
+// Key of Meter::storage_registry_: one entry per stream, that is per instrument (name, type, value
+// type) and per view matching it (position among the matching views).  '\n' cannot occur in a
+// valid instrument name.
+std::string StorageRegistryKey(const InstrumentDescriptor &instrument_descriptor, size_t view_index)
+{
+  return instrument_descriptor.name_ + '\n' +
+         std::to_string(static_cast<int>(instrument_descriptor.type_)) + '\n' +
+         std::to_string(static_cast<int>(instrument_descriptor.value_type_)) + '\n' +
+         std::to_string(view_index);
+}
+}  // namespace
 
 metrics::NoopMeter Meter::kNoopMeter = metrics::NoopMeter();
 
@@ -469,14 +485,27 @@ std::unique_ptr<SyncWritableMetricStorage> Meter::RegisterSyncMetricStorage(
   auto exemplar_filter_type = ctx->GetExemplarFilter();
 #endif
 
-  auto success = view_registry->FindViews(
+  size_t view_index = 0;
+  auto success      = view_registry->FindViews(
       instrument_descriptor, *scope_,
-      [this, &instrument_descriptor, &storages
+      [this, &instrument_descriptor, &storages, &view_index
 #ifdef ENABLE_METRICS_EXEMPLAR_PREVIEW
        ,
        exemplar_filter_type
 #endif
   ](const View &view) {
+        // A further handle for an instrument that already has this stream records into the
+        // existing storage; creating a new one would replace it in the registry and the
+        // measurements of the earlier handle (or of the earlier view) would never be collected.
+        auto registry_key = StorageRegistryKey(instrument_descriptor, view_index++);
+        auto registered   = storage_registry_.find(registry_key);
+        if (registered != storage_registry_.end())
+        {
+          // the key carries the instrument type, so this is a SyncMetricStorage
+          static_cast<SyncMultiMetricStorage *>(storages.get())
+              ->AddStorage(std::static_pointer_cast<SyncMetricStorage>(registered->second));
+          return true;
+        }
         auto view_instr_desc = instrument_descriptor;
         if (!view.GetName().empty())
         {
@@ -496,7 +525,7 @@ std::unique_ptr<SyncWritableMetricStorage> Meter::RegisterSyncMetricStorage(
                                  instrument_descriptor),
 #endif
             view.GetAggregationConfig()));
-        storage_registry_[instrument_descriptor.name_] = storage;
+        storage_registry_[registry_key] = storage;
         multi_storage->AddStorage(storage);
         return true;
       });
@@ -529,14 +558,24 @@ std::unique_ptr<AsyncWritableMetricStorage> Meter::RegisterAsyncMetricStorage(
   auto exemplar_filter_type = ctx->GetExemplarFilter();
 #endif
 
-  auto success = view_registry->FindViews(
+  size_t view_index = 0;
+  auto success      = view_registry->FindViews(
       instrument_descriptor, *GetInstrumentationScope(),
-      [this, &instrument_descriptor, &storages
+      [this, &instrument_descriptor, &storages, &view_index
 #ifdef ENABLE_METRICS_EXEMPLAR_PREVIEW
        ,
        exemplar_filter_type
 #endif
   ](const View &view) {
+        auto registry_key = StorageRegistryKey(instrument_descriptor, view_index++);
+        auto registered   = storage_registry_.find(registry_key);
+        if (registered != storage_registry_.end())
+        {
+          // the key carries the instrument type, so this is an AsyncMetricStorage
+          static_cast<AsyncMultiMetricStorage *>(storages.get())
+              ->AddStorage(std::static_pointer_cast<AsyncMetricStorage>(registered->second));
+          return true;
+        }
         auto view_instr_desc = instrument_descriptor;
         if (!view.GetName().empty())
         {
@@ -554,7 +593,7 @@ std::unique_ptr<AsyncWritableMetricStorage> Meter::RegisterAsyncMetricStorage(
                                  instrument_descriptor),
 #endif
             view.GetAggregationConfig()));
-        storage_registry_[instrument_descriptor.name_] = storage;
+        storage_registry_[registry_key] = storage;
         static_cast<AsyncMultiMetricStorage *>(storages.get())->AddStorage(storage);
         return true;
       });
